@@ -517,8 +517,7 @@ def run_c13(prop, tier):
 		"assumptions": ["success path only (every call returns Ok)", "file content does not change during the reads"],
 		"wall_s": round(time.time() - t0, 1), "violations": violations,
 	}
-	os.makedirs(os.path.join(vlib.VERIF, "evidence"), exist_ok=True)
-	json.dump(ev, open(os.path.join(vlib.VERIF, "evidence", f"{prop}.json"), "w"), indent=1)
+	json.dump(ev, open(os.path.join(vlib.evidence_dir(), f"{prop}.json"), "w"), indent=1)
 	print(f"[{prop}] tier={tier} queries={len(queries)} as-expected={len(good)} violations={violations} inconclusive={len(inconclusive)} wall={time.time() - t0:.0f}s")
 	return rc
 
